@@ -207,8 +207,13 @@ func (w *World) nonNilErr(v, given ssa.Value, phiRes map[*ssa.Phi]ssa.Value, dep
 			}
 		}
 	case *ssa.Extract:
+		// the error component of a call to a function (or to a local closure: a
+		// `fail := func(…) (T, error) { return zero, newError(…) }` helper) every
+		// return of which yields a non-nil error
 		if call, ok := x.Tuple.(*ssa.Call); ok {
-			_ = call
+			if sc := call.Common().StaticCallee(); sc != nil && sc.Blocks != nil && errIndex(sc.Signature) == x.Index && w.neverNilErr(sc, depth) {
+				return true
+			}
 		}
 	}
 	return false
